@@ -1,6 +1,7 @@
 package schema
 
 import (
+	"errors"
 	"fmt"
 	"reflect"
 )
@@ -244,7 +245,16 @@ func (a *AnySchema) checkAndConvert(data any) (any, error) {
 	case reflect.Uint32:
 		fallthrough
 	case reflect.Uint64:
-		return intInputMapper(data, nil)
+		converted, err := intInputMapper(data, nil)
+		if err != nil {
+			var constraintError *ConstraintError
+			if !errors.As(err, &constraintError) {
+				// (a number beyond int64) A ConstraintError can carry the path to the value; a plain error loses it.
+				return nil, &ConstraintError{Message: err.Error()}
+			}
+			return nil, err
+		}
+		return converted, nil
 	case reflect.Int64:
 		return t.Int(), nil // not a type assertion: the value may be of a named type with this kind
 	case reflect.Float32:
